@@ -233,7 +233,10 @@ Step_C37_Upgrade(pre, tx, post, ok) ==
       /\ FeatKeys(post.upg.features) = FeatKeys(pre.upg.features) \cup DOMAIN named
       /\ \A k \in DOMAIN named : StoredHeight(post, k) = named[k] /\ At(post.featMem, k, 0) = named[k]
       /\ \A k \in FeatKeys(pre.upg.features) \ DOMAIN named : StoredHeight(post, k) = StoredHeight(pre, k)
-      /\ \A k \in DOMAIN pre.featMem \ DOMAIN named : k \in DOMAIN post.featMem /\ post.featMem[k] = pre.featMem[k]
+      \* in the process's map every stored feature is (re)set to its stored height, anything else stays
+      /\ \A k \in DOMAIN pre.featMem \ DOMAIN named :
+           /\ k \in DOMAIN post.featMem
+           /\ post.featMem[k] = IF k \in FeatKeys(pre.upg.features) THEN StoredHeight(pre, k) ELSE pre.featMem[k]
       /\ Inv_C37_Canonical(post)
       /\ IF FeatureOnly(tx)
            THEN post.upg.height = pre.upg.height /\ post.upg.version = pre.upg.version /\ post.upg.old = pre.upg.old
